@@ -376,7 +376,20 @@ theorem pushObj_strip (I : ObjIface σ) (s : State σ) (p : Pkt) (now now' : Int
 
 theorem stripF_applyWEv (ans : FdtAns) (g : FdtRecv σ) (e : WEv) :
     stripF (g.applyWEv ans e) = (stripF g).applyWEv ans e := by
-  cases e <;> (try cases ans) <;> rfl
+  cases e with
+  | complete =>
+    simp only [FdtRecv.applyWEv, stripF_st]
+    by_cases h : g.st = .error
+    · simp only [h, if_true]
+    · simp only [h, if_false]; cases ans <;> rfl
+  | write sbn len =>
+    simp only [FdtRecv.applyWEv]
+    have hb : (stripF g).bytes = g.bytes := rfl
+    rw [hb]
+    by_cases h : g.bytes + len > maxFdtSize
+    · simp only [h, if_true]; rfl
+    · simp only [h, if_false]; rfl
+  | _ => rfl
 
 theorem stripF_applyWEvs (ans : FdtAns) (g : FdtRecv σ) (evs : List WEv) :
     stripF (g.applyWEvs ans evs) = (stripF g).applyWEvs ans evs := by
